@@ -1,9 +1,11 @@
 (* Extraction of the executable model and specification of C07 (ExtrOcamlBasic only). *)
-From MptV Require Import Base.Mem C07.ConvModel C07.ConvSpec C07.ConvFloat.
+From MptV Require Import Base.Mem C07.ConvModel C07.ConvSpec C07.ConvFloat C07.ConvDispatch C07.ConvDispatchSpec.
 Require Import ExtrOcamlBasic.
 Extraction "c07_model.ml" conv vconv iconv data_converter tty_of_code code_of_tty tgt_cty ity_cty
   convert_int_text convert_uint_text get_string_fcn convert_number convert_string convert_float_text tobserve
   round_int flt_bits fprec cwidth
   fconv spec_fconv fdecode
   spec_conv spec_text spec_text_char spec_text_flt
+  traits value_convert_c value_convert_flt convertable_wrap metatype_wrap mw_ok iterator_consume_c cres_err fobs_err
+  value_convert convert_int src_cty observe vret convert_string_full convert_float_text_r fgt spec_text_flt_r spec_other_to_number
   N.add Z.of_nat Z.to_nat Z.opp.
